@@ -71,7 +71,7 @@ def project_session(cmd, obs, si, walk):
         if cur is None:
             cur = prev
         new = [b for b in blocks if b["begin"] >= prev and b["end"] <= cur]
-        ev = {"ev": "w_op", "op": op["op"], "res": st["res"],
+        ev = {"ev": "w_op", "op": "drop" if op["op"] == "drop_panicking" else op["op"], "res": st["res"],
               "blocks": [{"count": b["count"], "size": b["size"], "sync": b["sync"], "raw": b.get("raw", []),
                           "trailer": b.get("trailer", []), "deframe_ok": "deframe_err" not in b} for b in new],
               "aligned": cur in ends and (cur != len(sink) or walk["stop"] == len(sink))}
